@@ -63,7 +63,9 @@ def check_builders(rep, core):
             rep.ok('R04.d', f.kpath, 'no lossy adaptor')
     # then_send
     for adt, many in (('RequestBuilder', False), ('StreamBuilder', True)):
-        fs = [f for f in core.built if f.kind == 'Closure' and f.coroutine and ('builder::%s::<Effect, Event, Task>::then_send' % adt) in (f.root or '')]
+        roots_ = [f for f in core.built if f.kind == 'AssocFn' and f.name == 'then_send' and path_matches(f.assoc.get('self_adt'), 'crux_core::command::builder::' + adt)]
+        # the async body of then_send: a coroutine among its closures (also when it lives in an async helper spliced into them)
+        fs = [g for r_ in roots_ for g in core.closures_of(r_) if g.coroutine and list(g.calls('crux_core::command::context::CommandContext::send_event'))]
         key = '%s::then_send' % adt
         if len(fs) != 1:
             rep.missing('R04.e', key)
@@ -134,6 +136,23 @@ def check_builders(rep, core):
                    'context (item: %s, chained: %s, ctx: %s, returned: %s, once: %s)' % (f.path, item_ok, chained, ctx_ok, returned, once))
     if n < 3:
         rep.bad('R04.f', 'sites', 'expected at least 3 stage closures (then_request / then_stream), found %d' % n)
+
+
+def fold_of_and(f):
+    """`iter.into_iter().fold(<fresh command>, Command::and)`: every item is and-ed onto a fresh command (Command::and hosts its right
+    operand on its left one and returns the left one).  Returns the fold call block or None"""
+    for bb, t in f.calls('core::iter::traits::iterator::Iterator::fold'):
+        if len(t['args']) != 3:
+            continue
+        src = origins(f, t['args'][0])
+        direct = bool(src) and all(o.kind == 'arg' and o.n == 1 and not [s_ for s_ in o.steps if s_[0] == 'idcall' and s_[2] != 'into_iter'] for o in src)
+        init = origins(f, t['args'][1])
+        fresh = bool(init) and all(o.kind == 'call' and call_matches(o.term, ['crux_core::command::Command::done', 'crux_core::command::Command::new']) for o in init)
+        fop = t['args'][2]
+        is_and = fop.get('o') == 'const' and path_matches(fop.get('fn') or '', 'crux_core::command::Command::and')
+        if direct and fresh and is_and:
+            return bb
+    return None
 
 
 def none_targets(fn, start):
@@ -248,6 +267,11 @@ def check(ctx, rep):
             if not any('effects' in x for x in eff) or not any('events' in x for x in evt) or any('events' in x for x in eff):
                 chan_ok = False
         key = 'hosted|%s' % fn_name
+        if fn_name == 'all' and not sites:
+            fa = [f for f in core.built if f.kind == 'AssocFn' and f.name == 'all' and path_matches(f.assoc.get('self_adt'), 'crux_core::command::Command')]
+            if len(fa) == 1 and fold_of_and(fa[0]) is not None:
+                rep.ok('R04.c', key, 'Command::all folds Command::and over its argument onto a fresh command (hosting checked for `and`)')
+                continue
         if fn_name == 'from_iter':
             # from_iter delegates to Command::all
             fs = [f for f in core.built if f.name == 'from_iter' and path_matches(f.assoc.get('trait'), 'core::iter::traits::collect::FromIterator')
@@ -294,6 +318,8 @@ def check(ctx, rep):
                                 if x.kind == 'agg' and x.stmt['rv'].get('ak') == 'closure' and x.stmt['rv']['ops']:
                                     item = origins(g, x.stmt['rv']['ops'][0])
                                     in_loop = bool(item) and all(y.kind == 'arg' and y.n == 2 and not y.suffix for y in item)
+        if not (direct and in_loop) and fold_of_and(f) is not None:
+            direct = in_loop = True
         rep.expect('R04.c', direct and in_loop, 'all|every-item', 'every item of the argument iterator is spawned (no adaptor, spawn inside the loop)',
                    'Command::all does not spawn every item of its argument (iterator adapted or spawn outside the loop)')
     counts = c01.check_linear(rep, core, 'default', rid='R04.c', only=lambda f, ty: 'crux_core::command::Command<' in ty)
